@@ -240,7 +240,27 @@ def r4_narrow(ctx):
                why='increment_halfmove_clock is `u8 + 1`; its only bound is the move-count draw, which a loop that ignores Draw never honours')
 
 
+def r3b_increment(ctx):
+    rule = 'C16.R3-plus-minus-one'
+    facts = ctx.facts
+    # increment_halfmove_clock pushes top + 1
+    name = MI + '::increment_halfmove_clock'
+    outs = Engine(facts).run(name)
+    ok = False
+    found = None
+    for o in outs:
+        for e in o.events:
+            if e[0] == 'call' and e[1].endswith('Vec::<T, A>::push'):
+                v = e[2][1]
+                found = show(v)
+                ok = (v[0] == 'call' and 'Add' in v[1] and any(s[0] == 'call' and s[1].endswith('::last') for s in subterms(v)) and C(1) in v[2]) or \
+                     (v[0] == 'bin' and v[1] == 'Add' and C(1) in (v[2], v[3]) and any(s[0] == 'call' and s[1].endswith('::last') for s in subterms(v)))
+    ctx.touch(name)
+    ctx.ob(rule, name, 'pushes the current clock + 1', ok, found=found, expected='push(*last + 1)')
+
+
 def run(ctx):
+    r3b_increment(ctx)
     r1_reset_table(ctx)
     r2_threshold(ctx)
     r3_plus_minus(ctx)
